@@ -8,7 +8,12 @@
 //
 // Lines (one output line per input line):
 //   case <n>
-//   cfgn <cap0> <pol0> [<cap1> <pol1> [<cap2> <pol2>]]      policy q|b|c; sources = push prefix 0..k-1
+//   cfgn <cap0> <pol0> [<cap1> <pol1> [<cap2> <pol2>]]      policy q|b|c|d; sources = push prefix 0..k-1
+//        d = CONFLATING policy with a COLLECTION output TSD<Int,TS<Int>> (ConflatingPolicyStorage with a
+//        dict accumulator): the payload of a send to such a source is a collection DELTA instead of an
+//        int:  <k>=<v> set | -<k> remove (lenient: the key may be absent) | e the empty delta, or a
+//        comma list of set/remove items (removals are applied first).  Its cycle entry is the value
+//        the sink saw, "{k:v,..}" sorted by key; accepted lists its deltas joined by ';'.
 //   sched <step> ...   S graph start | t<s>.<i>:<v> try_send of producer i to source s |
 //                      b<s>.<i>:<v> send_blocking | c one evaluation cycle |
 //                      L the loop by hand: cycles while the executor flag is raised (<= 40), then sleep |
@@ -25,8 +30,10 @@
 #include <hgraph/lib/testing/runtime_support.h>
 #include <hgraph/runtime/push_source_node.h>
 #include <hgraph/runtime/runtime.h>
+#include <hgraph/types/static_node.h>
 #include <hgraph/types/static_schema.h>
 #include <hgraph/types/type_resolution.h>
+#include <hgraph/types/value/value.h>
 
 #include <algorithm>
 #include <atomic>
@@ -54,7 +61,7 @@ namespace
     {
         std::size_t      source;
         int              producer;
-        std::int64_t     value;
+        std::string      value;      // the payload token
         std::future<int> result;     // 1 accepted, 0 refused, -1 threw
         std::thread      thread;
     };
@@ -67,7 +74,7 @@ namespace
         std::vector<PushSourceSender>           senders;
         std::vector<std::vector<std::string>>   cycle_vals;   // per source: what its sink saw in the current cycle
         std::vector<std::vector<std::string>>   delivered;    // per source: "t:v"
-        std::vector<std::vector<std::int64_t>>  accepted;     // per source
+        std::vector<std::vector<std::string>>   accepted;     // per source (ints, or delta tokens for a 'd' source)
         std::vector<Outstanding>                blocked;      // sorted by source (stable)
     };
 
@@ -111,6 +118,80 @@ namespace
                                    hgraph::testing::single_input_endpoint(input_schema, input_ts));
     }
 
+    // sink of a TSD<Int,TS<Int>> source: the full current value of its input, sorted by key
+    NodeBuilder dict_sink(const TSValueTypeMetaData &input_schema, const TSValueTypeMetaData &input_ts,
+                          std::vector<std::string> &into)
+    {
+        NodeTypeMetaData schema;
+        schema.display_name = "hgv_pushn_dict_sink";
+        schema.input_schema = &input_schema;
+        schema.node_kind    = NodeKind::Sink;
+        NodeCallbacks callbacks;
+        callbacks.evaluate = [&into](const NodeView &view, DateTime evaluation_time) {
+            auto        root   = view.input(evaluation_time);
+            auto        bundle = root.as_bundle();
+            const auto  input  = bundle[0];
+            const Value copy{input.value()};
+            const auto  map = copy.view().as_map();
+            std::map<std::int64_t, std::int64_t> snap;
+            for (const auto &[key, value] : map) { snap[key.template checked_as<Int>()] = value.template checked_as<Int>(); }
+            std::string s = "{";
+            bool first = true;
+            for (const auto &[k, v] : snap) { s += (first ? "" : ",") + std::to_string(k) + ":" + std::to_string(v); first = false; }
+            into.push_back(s + "}");
+        };
+        return NodeBuilder::native(std::move(schema), std::move(callbacks),
+                                   hgraph::testing::single_input_endpoint(input_schema, input_ts));
+    }
+
+    bool digits(const std::string &s) { return !s.empty() && s.find_first_not_of("0123456789") == std::string::npos; }
+
+    // "<k>=<v>" | "-<k>" | "e" | comma list of set/remove items
+    bool parse_delta(const std::string &tok, std::map<Int, Int> &sets, std::vector<Int> &removes)
+    {
+        if (tok == "e") { return true; }
+        std::size_t at = 0;
+        while (at <= tok.size())
+        {
+            const auto comma = tok.find(',', at);
+            const std::string item = tok.substr(at, comma == std::string::npos ? std::string::npos : comma - at);
+            if (item.size() > 1 && item[0] == '-' && digits(item.substr(1)) && item.size() < 8) { removes.push_back(Int{to_i(item.substr(1))}); }
+            else
+            {
+                const auto eq = item.find('=');
+                if (eq == std::string::npos || !digits(item.substr(0, eq)) || !digits(item.substr(eq + 1)) || item.size() > 16) { return false; }
+                sets.insert_or_assign(Int{to_i(item.substr(0, eq))}, Int{to_i(item.substr(eq + 1))});
+            }
+            if (comma == std::string::npos) { break; }
+            at = comma + 1;
+        }
+        return true;
+    }
+
+    // canonical text of a delta (as the model driver prints it): removals ascending, then sets by key, "e" when empty
+    std::string canon_payload(char policy, const std::string &tok)
+    {
+        if (policy != 'd') { return tok; }
+        std::map<Int, Int> sets;
+        std::vector<Int>   removes;
+        (void)parse_delta(tok, sets, removes);
+        std::sort(removes.begin(), removes.end());
+        removes.erase(std::unique(removes.begin(), removes.end()), removes.end());
+        std::string s;
+        for (const auto &r : removes) { s += (s.empty() ? "" : ",") + ("-" + std::to_string(r)); }
+        for (const auto &[k, v] : sets) { s += (s.empty() ? "" : ",") + (std::to_string(k) + "=" + std::to_string(v)); }
+        return s.empty() ? "e" : s;
+    }
+
+    Value make_payload(char policy, const std::string &tok)
+    {
+        if (policy != 'd') { return Value{Int{to_i(tok)}}; }
+        std::map<Int, Int> sets;
+        std::vector<Int>   removes;
+        (void)parse_delta(tok, sets, removes);
+        return static_node_detail::build_dict_delta<Int, TS<Int>>(sets, removes);
+    }
+
     std::string run_schedule(const std::vector<SourceCfg> &cfg, const std::vector<std::string> &steps)
     {
         const std::size_t k = cfg.size();
@@ -124,22 +205,28 @@ namespace
 
         const auto *ts_int   = ts_type<TS<Int>>();
         const auto *ts_tuple = ts_type<TS<HomogeneousTuple<Int>>>();
+        const auto *ts_dict  = ts_type<TSD<Int, TS<Int>>>();
+        auto out_type = [&](std::size_t s) -> const TSValueTypeMetaData * {
+            return cfg[s].policy == 'b' ? ts_tuple : (cfg[s].policy == 'd' ? ts_dict : ts_int);
+        };
 
         GraphBuilder gb;
         for (std::size_t s = 0; s < k; ++s)
         {
-            const TSValueTypeMetaData *out_ts = cfg[s].policy == 'b' ? ts_tuple : ts_int;
+            const TSValueTypeMetaData *out_ts = out_type(s);
             PushSourcePolicy pol = cfg[s].policy == 'b'   ? make_push_source_burst_policy(*ts_tuple, cfg[s].cap)
                                    : cfg[s].policy == 'c' ? make_push_source_conflating_policy(*ts_int)
+                                   : cfg[s].policy == 'd' ? make_push_source_conflating_policy(*ts_dict)
                                                           : make_push_source_queue_policy(*ts_int, cfg[s].cap);
             gb.add_node(make_push_source_node(*out_ts, pol, [&run, s](PushSourceSender sender) { run.senders[s] = std::move(sender); }));
         }
         for (std::size_t s = 0; s < k; ++s)
         {
-            const TSValueTypeMetaData *out_ts = cfg[s].policy == 'b' ? ts_tuple : ts_int;
+            const TSValueTypeMetaData *out_ts = out_type(s);
             const auto *input_schema = hgraph::testing::single_input_schema(*out_ts);
-            gb.add_node(cfg[s].policy == 'b' ? tuple_sink(*input_schema, *out_ts, run.cycle_vals[s])
-                                             : int_sink(*input_schema, *out_ts, run.cycle_vals[s]));
+            gb.add_node(cfg[s].policy == 'b'   ? tuple_sink(*input_schema, *out_ts, run.cycle_vals[s])
+                        : cfg[s].policy == 'd' ? dict_sink(*input_schema, *out_ts, run.cycle_vals[s])
+                                               : int_sink(*input_schema, *out_ts, run.cycle_vals[s]));
             gb.add_edge(GraphEdge{.source_node = make_graph_edge_source(s), .source_path = {}, .target_node = k + s, .target_path = {0}});
         }
 
@@ -155,7 +242,7 @@ namespace
             return m.has_value() ? *m : 0;
         };
         auto flag = [&]() { return view.push_queue_engine().is_push_update_pending(); };
-        auto full_now = [&](std::size_t s) { return run.cfg[s].policy != 'c' && run.cfg[s].cap != 0 && pending(s) >= run.cfg[s].cap; };
+        auto full_now = [&](std::size_t s) { return run.cfg[s].policy != 'c' && run.cfg[s].policy != 'd' && run.cfg[s].cap != 0 && pending(s) >= run.cfg[s].cap; };
         auto blocked_on = [&](std::size_t s) {
             std::size_t n = 0;
             for (const auto &o : run.blocked) { n += o.source == s ? 1 : 0; }
@@ -190,8 +277,8 @@ namespace
                 run.blocked.erase(run.blocked.begin() + static_cast<std::ptrdiff_t>(i));
                 const int r = o.result.get();
                 o.thread.join();
-                if (r == 1) { run.accepted[o.source].push_back(o.value); }
-                line += " +b" + std::to_string(o.source) + "." + std::to_string(o.producer) + ":" + std::to_string(o.value) + "=" + res_str(r);
+                if (r == 1) { run.accepted[o.source].push_back(canon_payload(run.cfg[o.source].policy, o.value)); }
+                line += " +b" + std::to_string(o.source) + "." + std::to_string(o.producer) + ":" + o.value + "=" + res_str(r);
             }
             for (std::size_t s = 0; s < k; ++s) { if (ready[s] < expect[s]) { line += " +stuck"; } }
         };
@@ -278,7 +365,7 @@ namespace
                 const auto   c        = st.find(':');
                 const auto   source   = static_cast<std::size_t>(to_i(st.substr(1, dot - 1)));
                 const int    producer = static_cast<int>(to_i(st.substr(dot + 1, c - dot - 1)));
-                const auto   value    = to_i(st.substr(c + 1));
+                const std::string value = st.substr(c + 1);
                 const bool   blocking = st[0] == 'b';
                 bool busy = false;
                 for (const auto &o : run.blocked) { busy = busy || (o.source == source && o.producer == producer); }
@@ -290,16 +377,25 @@ namespace
                     std::promise<int> promise;
                     Outstanding o{source, producer, value, promise.get_future(), {}};
                     PushSourceSender sender = run.senders[source];
-                    o.thread = std::thread([sender, value, blocking, p = std::move(promise)]() mutable {
-                        try { p.set_value((blocking ? sender.send_blocking(Int{value}) : sender.try_send(Int{value})) ? 1 : 0); }
+                    auto running = std::make_shared<std::atomic<bool>>(false);
+                    const char policy = run.cfg[source].policy;
+                    o.thread = std::thread([sender, value, policy, blocking, running, p = std::move(promise)]() mutable {
+                        running->store(true, std::memory_order_release);
+                        try
+                        {
+                            Value payload = make_payload(policy, value);
+                            p.set_value((blocking ? sender.send_blocking(std::move(payload)) : sender.try_send(std::move(payload))) ? 1 : 0);
+                        }
                         catch (...) { p.set_value(-1); }
                     });
+                    // the 30 ms that tell "parked" from "returned" start once the thread is really running
+                    while (!running->load(std::memory_order_acquire)) { std::this_thread::yield(); }
                     const auto wait = expect_block ? std::chrono::milliseconds{30} : std::chrono::milliseconds{10000};
                     if (o.result.wait_for(wait) == std::future_status::ready)
                     {
                         const int r = o.result.get();
                         o.thread.join();
-                        if (r == 1) { run.accepted[source].push_back(value); }
+                        if (r == 1) { run.accepted[source].push_back(canon_payload(policy, value)); }
                         line += "=" + res_str(r);
                     }
                     else
@@ -333,7 +429,7 @@ namespace
         for (std::size_t s = 0; s < k; ++s)
         {
             result += s ? "/[" : "[";
-            for (std::size_t i = 0; i < run.accepted[s].size(); ++i) { result += (i ? "," : "") + std::to_string(run.accepted[s][i]); }
+            for (std::size_t i = 0; i < run.accepted[s].size(); ++i) { result += (i ? (run.cfg[s].policy == 'd' ? ";" : ",") : "") + run.accepted[s][i]; }
             result += "]";
         }
         result += " delivered=";
@@ -490,18 +586,24 @@ namespace
                (run_error.empty() ? "" : " run_error=" + run_error);
     }
 
-    bool digits(const std::string &s) { return !s.empty() && s.find_first_not_of("0123456789") == std::string::npos; }
-
-    bool valid_step(const std::string &s, std::size_t k)
+    bool valid_step(const std::string &s, const std::vector<SourceCfg> &cfg)
     {
+        const std::size_t k = cfg.size();
         if (s == "S" || s == "c" || s == "L" || s == "r" || s == "X") { return true; }
         if (s.empty() || (s[0] != 't' && s[0] != 'b')) { return false; }
         const auto dot = s.find('.');
         const auto c   = s.find(':');
         if (dot == std::string::npos || c == std::string::npos || dot > c) { return false; }
         const std::string src = s.substr(1, dot - 1), prod = s.substr(dot + 1, c - dot - 1), val = s.substr(c + 1);
-        if (!digits(src) || !digits(prod) || !digits(val) || src.size() > 6) { return false; }
-        return static_cast<std::size_t>(to_i(src)) < k;
+        if (!digits(src) || !digits(prod) || src.size() > 6) { return false; }
+        if (static_cast<std::size_t>(to_i(src)) >= k) { return false; }
+        if (cfg[static_cast<std::size_t>(to_i(src))].policy == 'd')
+        {
+            std::map<Int, Int> sets;
+            std::vector<Int>   removes;
+            return !val.empty() && parse_delta(val, sets, removes);
+        }
+        return digits(val);
     }
 }  // namespace
 
@@ -523,7 +625,7 @@ int main()
                 bool ok = (w.size() == 3 || w.size() == 5 || w.size() == 7);
                 for (std::size_t i = 1; ok && i + 1 < w.size(); i += 2)
                 {
-                    ok = digits(w[i]) && (w[i + 1] == "q" || w[i + 1] == "b" || w[i + 1] == "c");
+                    ok = digits(w[i]) && (w[i + 1] == "q" || w[i + 1] == "b" || w[i + 1] == "c" || w[i + 1] == "d");
                     if (ok) { c.push_back(SourceCfg{static_cast<std::size_t>(to_i(w[i])), w[i + 1][0]}); }
                 }
                 if (!ok) { std::cout << "bad-op\n"; continue; }
@@ -540,7 +642,7 @@ int main()
             {
                 std::vector<std::string> steps(w.begin() + 1, w.end());
                 bool ok = true;
-                for (const auto &s : steps) { ok = ok && valid_step(s, cfg.size()); }
+                for (const auto &s : steps) { ok = ok && valid_step(s, cfg); }
                 if (!ok) { std::cout << "bad-op\n"; continue; }
                 std::cout << run_schedule(cfg, steps) << "\n";
             }
